@@ -82,7 +82,8 @@ def view_rect(view, W, Hh):
         return None, (0, 0, W - 1, Hh - 1), False
     if view == 'rel':
         # (left edge and top edge differ, one way in 'rel' and the other in 'abs': bounds of the two axes must not be mixed up)
-        return b'VIEW (12,6)-(27,17)', (12, 6, 27, 17), True
+        # (written with fractions: corners are rounded to the nearest pixel, halves away from zero)
+        return b'VIEW (11.6,5.6)-(26.5,16.5)', (12, 6, 27, 17), True
     if view == 'abs':
         return b'VIEW SCREEN (4,10)-(19,21)', (4, 10, 19, 21), False
     if view == 'relcorner':
